@@ -257,6 +257,9 @@ func (env *Env) build(st *Step) error {
 			return &utypes.UPtrLeaf{Msg: s}
 		case "uValLeaf":
 			return utypes.UValLeaf{Msg: s, Extra: []int{1}}
+		case "uValPtrLeaf":
+			// the same value type, stored by pointer
+			return &utypes.UValLeaf{Msg: s, Extra: []int{2}}
 		case "uRegLeaf":
 			return &utypes.URegLeaf{Msg: s}
 		case "uIsLeaf":
@@ -384,6 +387,12 @@ func (env *Env) build(st *Step) error {
 			return join.Join(errs...)
 		}
 		return goerrors.Join(errs...)
+	case "UMulti":
+		errs := make([]error, len(st.Src))
+		for i, r := range st.Src {
+			errs[i] = env.Slots[r]
+		}
+		return &utypes.UMulti{Msg: s, Errs: errs}
 	case "GoWrap2":
 		return fmt.Errorf("%w"+tok.FmtEscape(st.S)+"%w", e, x)
 	case "GrpcStatus":
